@@ -15,10 +15,10 @@ META = {
  "harnesses": {
   "h_two_links": {"kind": "G", "functions": _FUNCS,
     "bounds": "GFA1 graph on 3 segments with distinct sequences (IUPAC codes included) or without sequences (LN only) and ANY two links (from, to in {a,b,c}: self links, hairpins, parallel and complementary links, 2-cycles; all orientation pairs; overlap 1M, thorough also '*' and 2M): linear_paths equals the oracle chains; after merge_linear_paths one segment per chain with the spelled sequence and LN, outward dovetails re-attached, other lines unchanged, components preserved, reference graph closed and symmetric, second merge is a no-op",
-    "timeout": {"quick": 400, "thorough": 1200}, "parts": {"quick": 16, "thorough": 16}},
+    "timeout": {"quick": 400, "thorough": 900}, "parts": {"quick": 16, "thorough": 16}},
   "h_chain_shapes": {"kind": "G", "functions": _FUNCS,
     "bounds": "chains a-b-c (quick) / a-b-c-d (thorough): every orientation pair at every junction, overlap 0..2, plus one decoration (none, hairpin on the last end, hairpin on the first end, branch at the last end, closing link making a cycle, containment on the middle segment, link to an outside segment e); sequences present or '*'; same assertions as h_two_links",
-    "timeout": {"quick": 400, "thorough": 1200}, "parts": {"quick": 16, "thorough": 16}},
+    "timeout": {"quick": 400, "thorough": 900}, "parts": {"quick": 16, "thorough": 16}},
   "h_gfa2_form": {"kind": "G", "functions": _FUNCS + ["edge gfa2 ToGFA1 accessors (from_segment/overlap setters)"],
     "bounds": "the chain a-b-c written as GFA2 E lines (4 orientation pairs per junction, overlap 1..2): linear_paths equals the oracle chains; merging yields one segment with the spelled sequence",
     "timeout": {"quick": 300, "thorough": 900}, "parts": {"quick": 4, "thorough": 4}},
